@@ -182,10 +182,17 @@ def render(fmt, f, off, zone, loc):
 
 
 # ------------------------------------------------------------------------------ generator
-def _value(r, full=False):
+# zones whose offsets changed between eras without a change of the DST flag (whole minutes)
+ERA_ZONES = ["Europe/Moscow", "Asia/Pyongyang", "Europe/Istanbul", "America/Caracas", "Asia/Kathmandu", "Pacific/Apia",
+             "Europe/Minsk", "Asia/Colombo"]
+
+
+def _value(r, full=False, zone_=None):
     """(spec, meta) of a DateTime in years 1000..9999 with a whole-minute offset."""
     k = r.random()
-    if k < 0.25:
+    if zone_ is not None:
+        zone = zone_
+    elif k < 0.25:
         zone = r.choice(WHOLE_MIN_FIXED)
     elif k < 0.32 and not full:
         zone = None
@@ -230,6 +237,14 @@ def gen(rp, rw, tier):
         s, m = _value(rp)
         pool.append(s)
         meta.append(m)
+    if rp.random() < 0.2:
+        # the same zone object in two eras: nothing remembered about the zone may stand in for
+        # what depends on the instant
+        ez = rp.choice(ERA_ZONES)
+        for _ in range(2):
+            s, m = _value(rp, zone_=ez)
+            pool.append(s)
+            meta.append(m)
     zone_clock = rw.choice(ZONES2)
     clock = gen_dt.pick_instant(rw, zone_clock, lo_year=1975, hi_year=2035)
     # bias "now" to the last/first moments of a day, month or year in the zone a client will ask for
@@ -251,7 +266,7 @@ def gen(rp, rw, tier):
                 clocks.append(c2)
                 nem.append(["nem", "clock", c2])
             else:
-                nem.append(["nem", "locale", rw.choice(locales)])
+                nem.append(["nem", "locale", rw.choice(locales + ["xx", "en_zz"]) if rw.random() < 0.15 else rw.choice(locales)])
     nem_has_locale = any(e[1] == "locale" for e in nem)
     actors = []
     for c in range(rw.choice([1, 2, 2, 3])):
